@@ -17,6 +17,12 @@ TRUSTED = ["rustc MIR construction / drop elaboration / trait resolution (nightl
            "BufWriter and the kernel preserve byte order"]
 
 
+def RR_PRINT(facts):
+    import request_rules as RR_
+    RR_.rmodel(facts)
+    return RR_.RAW_PRINT
+
+
 def run(ctx):
     facts = ctx.facts
     roles.bind(facts)
@@ -137,7 +143,7 @@ def respond_rules(ctx, rule):
     bad_flush, bad_drop, n_print = [], [], 0
     for p in ps:
         evs = p.events
-        prints = [i for i, e in enumerate(evs) if e[1] == "call" and re.search(r"response::Response::<R>::raw_print$", e[2])]
+        prints = [i for i, e in enumerate(evs) if e[1] == "call" and re.search(RR_PRINT(facts), e[2])]
         if not prints:
             continue
         n_print += 1
